@@ -165,7 +165,15 @@ def run(repo, rep, tier):
       rep.undecided('R2/same-distribution', bound, 'no definition', f.loc())
       continue
     d = defs[-1]
-    t = norm(rd.expand(d.node, d.value, keep=('delta_metric', 'pointwise_difference', 'test_start_date', 'tail_probability'), depth=3)[0])
+    KEEP_ = ('delta_metric', 'pointwise_difference', 'test_start_date', 'tail_probability')
+    if d.how == 'unpack' and len(defs) == 1:
+      # lower, upper = (E(q) for q in (p, 1 - p)): the element at the target's position
+      val_ = rd.expand(pn, ast.Name(id=bound, ctx=ast.Load()), keep=KEEP_)[0]
+      if isinstance(val_, ast.Name) and val_.id == bound:
+        rep.undecided('R2/same-distribution', bound, 'the bound is one element of an unpacked sequence that is not followed', f.loc(d.node.ast))
+        continue
+      d = type('D', (), {'node': d.node, 'value': val_, 'how': 'assign'})()
+    t = norm(rd.expand(d.node, d.value, keep=KEEP_, depth=3)[0])
     pat = r"np\.concatenate\(\(pointwise_difference\.loc\[pointwise_difference\['date'\] < test_start_date, 'metric'\]\.to_numpy\(\), np\.diff\((\w+)\.ppf\(%s\), prepend=0\)\)\)" % re.escape(qarg)
     m = re.fullmatch(pat, t)
     rep.check_term(m is not None, rd.expand(d.node, d.value, keep=('delta_metric', 'pointwise_difference', 'test_start_date', 'tail_probability'))[0],
@@ -338,6 +346,15 @@ def run(repo, rep, tier):
                    if any(isinstance(y_, ast.Compare) and all(("['%s']" % c_) in norm(y_) for c_ in cols_) for y_ in ast.walk(ictx.rd.expand(tn, e_)[0]))]
         if mention:
           rep.undecided('R4/container', 'container guard: %s' % what, 'the columns are compared at line %s in a form that is not followed' % getattr(mention[0].ast or mention[0].expr, 'lineno', '?'), init.loc())
+          continue
+        # absence has to hold wherever the guard could live: a call made by the constructor that is not one of the plain
+        # library calls of the unchanged constructor (a rule object, a validator table, a helper) may carry it
+        plain_ = {'super', 'issubset', 'KeyError', 'ValueError', 'any', 'all', 'set', 'len', 'isinstance', 'format', 'join', '__init__'}
+        other_calls = [norm(c_)[:50] for tn in ig.nodes for e_ in ictx.node_exprs(tn) for c_ in au.calls_in(e_)
+                       if (c_.func.attr if isinstance(c_.func, ast.Attribute) else getattr(c_.func, 'id', '?')) not in plain_
+                       and not norm(c_.func).startswith(('np.', 'numpy.', 'pd.', 'pandas.'))]
+        if other_calls:
+          rep.undecided('R4/container', 'container guard: %s' % what, 'the constructor calls `%s`, which is not followed: the guard may live there' % other_calls[0], init.loc())
           continue
       rep.check(found, 'R4/container', 'container guard: %s' % what, init.qualname, what, 'the series container does not enforce that %s' % what, init.loc())
   # R5 shared input rules
